@@ -105,11 +105,13 @@ theorem gap_of_fill' {pj' : PJ} {lo hi : Nat} (hh : hi < 2^56)
   · rw [payloadOf_mkWord_small _ _ hsm, hn]; omega
   · rw [payloadOf_mkWord_small _ _ hsm, hn]; omega
 
-/-- The NOP fill of `[a, b)` used by both `DeleteElems`: it succeeds, the range becomes a gap (skip counts
-    `b - k`), nothing else changes. -/
-theorem fill_step (pj : PJ) (a b : Nat) (hab : a ≤ b) (hb : b ≤ pj.tape.size) (hs : pj.tape.size < 2^56) :
-    ∃ tp, View.fillNops pj.tape a b = .ok tp ∧ tp.size = pj.tape.size ∧
+/-- The NOP fill of `[a, b)` used by both `DeleteElems` (through a view of length `lim` that contains the range:
+    `b ≤ lim`, so the view-checked `nopFillV` is the array-checked `nopFill`): it succeeds, the range becomes a gap
+    (skip counts `b - k`), nothing else changes. -/
+theorem fill_step (pj : PJ) (lim a b : Nat) (hab : a ≤ b) (hl : b ≤ lim) (hb : b ≤ pj.tape.size) (hs : pj.tape.size < 2^56) :
+    ∃ tp, Iter.nopFillV lim pj.tape a b = .ok tp ∧ tp.size = pj.tape.size ∧
       Gap { pj with tape := tp } a b ∧ AgreeOut pj { pj with tape := tp } a b := by
+  rw [nopFillV_eq_nopFill lim (b - a) pj.tape a b rfl hl]
   obtain ⟨tp, h1, h2, h3, h4⟩ := nopFill_spec (b - a) pj.tape a b rfl hb
   refine ⟨tp, h1, h2, gap_of_fill' (by omega) (fun k x y => h3 k x y) hab, ?_, ?_⟩
   · intro k hk
@@ -214,7 +216,7 @@ theorem arr_loop (pred : Nat → Bool) : ∀ (vs : LVals) (pj : PJ) (i : Iter) (
         exact ⟨hst, by rw [← hlim]; exact hstands⟩
     | true =>
       -- the element is deleted: `[v.pos, v.fin)` becomes a gap
-      obtain ⟨tp, hfill, htz, hgap, hA1⟩ := fill_step pj v.pos v.fin (by omega) (by omega) hsmall
+      obtain ⟨tp, hfill, htz, hgap, hA1⟩ := fill_step pj i'.lim v.pos v.fin (by omega) (by omega) (by omega) hsmall
       have hend1 : hi = i'.lim ∨ ∃ c, word { pj with tape := tp } hi = some c ∧ (tagOf c == tagNop) = false ∧
           tagToType (tagOf c) = typeNone := by
         rw [hlim, hA1.words hi (Or.inr hfin)]; exact hend
@@ -498,7 +500,7 @@ theorem obj_loop (pred : Nat → Bytes → Bool) (onlyKeys : List Bytes) :
           exact ⟨trivial, ⟨hlim2, hoff2, hnext2, by assumption⟩, by rw [← hlim2]; exact hstands⟩
       | true =>
         -- visited and deleted: `[pk, v.fin)` (key and value) becomes a gap
-        obtain ⟨tp, hfill, htz, hgap, hA1⟩ := fill_step pj pk v.fin (by omega) (by omega) hsmall
+        obtain ⟨tp, hfill, htz, hgap, hA1⟩ := fill_step pj i2.lim pk v.fin (by omega) (by omega) (by omega) hsmall
         have hne : ¬ ((i2.off : Int) + i2.addNext < 0) := by omega
         have he3 : ((i2.off : Int) + i2.addNext).toNat = v.fin := by omega
         have glo : Gap { pj with tape := tp } lo v.fin := gap_trans (gap_frame hA1.below (Nat.zero_le _) (Nat.le_refl _) g1) hgap
